@@ -64,8 +64,19 @@ def gen_points(R, gen, n, pl):
             # longitudes close to 0 / 2pi and in the 3pi/2..2pi quadrant, where tile longitudes sit on another branch
             pts.append((R.choice([R.uniform(4.8, 6.28), R.uniform(0, 0.05), 2 * math.pi - R.uniform(0, 0.05)]), math.asin(R.uniform(-0.98, 0.98))))
         else:
-            k = R.randrange(7)
-            if k == 0:
+            k = R.randrange(8)
+            if k == 7:
+                # raw, un-normalised longitudes a rounding error away from a multiple of 2pi (what arctan2(-1e-17, 1), an
+                # accumulated hour angle or a subtraction of two nearly equal angles produce): `lon % 2pi` of a tiny
+                # negative number IS 2pi in floating point
+                tp = 2 * math.pi
+                m = R.choice([0.0, 0.0, tp, -tp, 2 * tp, H, math.pi])
+                off = R.choice([-5e-324, -1e-300, -1e-17, -1e-16, -4.4e-16, -8.9e-16, 5e-324, 1e-17, 4.4e-16])
+                lo = m + off if m else off
+                if m and lo == m:
+                    lo = math.nextafter(m, -math.inf if off < 0 else math.inf)
+                pts.append((lo, math.asin(R.uniform(-0.99, 0.99)) if R.random() < 0.8 else 0.0))
+            elif k == 0:
                 m = R.choice([0.0, H, math.pi, 3 * H, 2 * math.pi])
                 off = R.choice([0.0, 0.0, 1e-12, 1e-6, 1e-3, 0.02]) * R.choice([-1, 1])
                 pts.append(((m + off) % (2 * math.pi) if off else m, math.asin(R.uniform(-1, 1))))
